@@ -55,6 +55,9 @@ func randLabel(rng *rand.Rand, maxLen int) string {
 
 func randName(rng *rand.Rand) string {
 	k := 1 + rng.Intn(8)
+	if rng.Intn(4) == 0 {
+		k = 1 + rng.Intn(2) // bare host names, two-label names
+	}
 	parts := make([]string, k)
 	for i := range parts {
 		parts[i] = randLabel(rng, pick(rng, 1, 3, 8, 62, 63))
@@ -380,6 +383,7 @@ func genC19(o *Out, rng *rand.Rand, tier string) {
 				}
 				if l := q.DomainSearch(); l != nil {
 					rec["ok"], rec["names"] = true, namesJSON(l.Labels)
+					rec["reenc"] = B(dhcpv4.OptDomainSearch(l).Value.ToBytes()) // the option put into another packet as it was read
 				}
 			case "v6dsl":
 				opt, err := dhcpv6.ParseOption(dhcpv6.OptionDomainSearchList, in)
@@ -388,17 +392,24 @@ func genC19(o *Out, rng *rand.Rand, tier string) {
 					m.AddOption(opt)
 					if l := m.Options.DomainSearchList(); l != nil {
 						rec["ok"], rec["names"] = true, namesJSON(l.Labels)
+						rec["reenc"] = B(opt.ToBytes())
 					}
 				}
 			case "v6fqdn":
 				opt, err := dhcpv6.ParseOption(dhcpv6.OptionFQDN, append([]byte{1}, in...))
 				if err == nil {
 					rec["ok"], rec["names"] = true, namesJSON(opt.(*dhcpv6.OptFQDN).DomainName.Labels)
+					if w := opt.ToBytes(); len(w) > 0 && w[0] == 1 {
+						rec["reenc"] = B(w[1:])
+					} else {
+						rec["reenc"] = B(w)
+					}
 				}
 			case "v6ntp":
 				var so dhcpv6.NTPSuboptionSrvFQDN
 				if err := so.FromBytes(in); err == nil {
 					rec["ok"], rec["names"] = true, namesJSON(so.Labels.Labels)
+					rec["reenc"] = B(so.ToBytes())
 				}
 			}
 		}()
